@@ -268,6 +268,18 @@ fn gen_c16<W: Write>(r: &mut Rng, thorough: bool, out: &mut W) {
                 // the same slide with base qualities: each of the three rules, thresholds hit exactly
                 writeln!(out, "iter w={w} k={k} rc={rc} seq={} {}", s(&sq), qual_args(r, sq.len(), k)).unwrap();
             }
+            // windows whose packed arms are all zero bits (poly-A) or all one bits (poly-G), alone and next to their
+            // complements, in both strand modes: whatever a field holds before it is first computed must not matter
+            for (base, other) in [(b'A', b'T'), (b'G', b'C')] {
+                for rc in 0..2 {
+                    let mut sq = vec![base; k + 2];
+                    sq.push(*r.pick(&ACGT));
+                    sq.extend(vec![other; k + 1]);
+                    sq.extend(vec![base; k]);
+                    writeln!(out, "iter w={w} k={k} rc={rc} seq={}", s(&sq)).unwrap();
+                    writeln!(out, "hash w={w} k={k} rc={rc} seq={}", s(&sq)).unwrap();
+                }
+            }
         }
     }
 }
@@ -1204,6 +1216,13 @@ fn gen_c15<W: Write>(r: &mut Rng, thorough: bool, out: &mut W) {
                 // same record, separated by an N so that no window spans two occurrences
                 if !cur.is_empty() {
                     cur.push(b'N');
+                }
+                // sometimes an unrelated stretch with windows of its own first: the occurrence is then the
+                // first window after a gap whose last window before the gap was of the other kind
+                if r.chance(1, 2) {
+                    let l = k + r.below(3);
+                    cur.extend_from_slice(&rand_acgt(r, l));
+                    cur.push(if r.chance(1, 2) { b'N' } else { b'n' });
                 }
                 cur.extend_from_slice(&occ);
             } else {
